@@ -115,3 +115,76 @@ func c14CountMinus(c *core.Check) {
 		r.Unknown("drawing code | divisions by a count minus a constant", "-", "none found")
 	}
 }
+
+// c14FiniteAttributes (R15): strconv.ParseFloat accepts "NaN", "Inf" and "Infinity".  In package svg, a number
+// parsed from attribute text reaches the backend as a coordinate, a size or a line width; every call of
+// strconv.ParseFloat there is either made on a span of number characters delimited by the path scanner
+// (consumeNumber), or its result is tested with math.IsNaN and math.IsInf in the same function.
+func c14FiniteAttributes(c *core.Check) {
+	p := c.Prog
+	r := c.Rule("R15", "finite numbers from SVG attributes: every call of strconv.ParseFloat in package svg has its result tested with math.IsNaN and math.IsInf in the same function, unless its argument is a span delimited by consumeNumber", 2)
+	n := 0
+	for _, fn := range p.FuncsOfPkg("svg") {
+		if fn.Blocks == nil {
+			continue
+		}
+		k := 0
+		core.Instrs(fn, func(in ssa.Instruction) {
+			call, ok := in.(*ssa.Call)
+			if !ok {
+				return
+			}
+			callee := call.Call.StaticCallee()
+			if callee == nil || callee.Pkg == nil || callee.Pkg.Pkg.Path() != "strconv" || callee.Name() != "ParseFloat" {
+				return
+			}
+			n++
+			k++
+			key := fmt.Sprintf("%s | strconv.ParseFloat #%d", core.FuncName(fn), k)
+			// a scanned span
+			scanned := core.DerivesFrom(call.Call.Args[0], func(v ssa.Value) bool {
+				c2, ok := v.(*ssa.Call)
+				return ok && c2.Call.StaticCallee() != nil && c2.Call.StaticCallee().Name() == "consumeNumber"
+			})
+			if !scanned {
+				if sl, ok := call.Call.Args[0].(*ssa.Slice); ok && sl.High != nil {
+					scanned = core.DerivesFrom(sl.High, func(v ssa.Value) bool {
+						c2, ok := v.(*ssa.Call)
+						return ok && c2.Call.StaticCallee() != nil && c2.Call.StaticCallee().Name() == "consumeNumber"
+					})
+				}
+			}
+			if scanned {
+				r.OK(key, p.Pos(call.Pos()), "a span of number characters delimited by the scanner")
+				return
+			}
+			var res ssa.Value
+			for _, ref := range *call.Referrers() {
+				if ex, ok := ref.(*ssa.Extract); ok && ex.Index == 0 {
+					res = ex
+				}
+			}
+			nan, inf := false, false
+			core.Instrs(fn, func(in2 ssa.Instruction) {
+				c2, ok := in2.(*ssa.Call)
+				if !ok || res == nil {
+					return
+				}
+				cl := c2.Call.StaticCallee()
+				if cl == nil || cl.Pkg == nil || cl.Pkg.Pkg.Path() != "math" || len(c2.Call.Args) == 0 || c2.Call.Args[0] != res {
+					return
+				}
+				switch cl.Name() {
+				case "IsNaN":
+					nan = true
+				case "IsInf":
+					inf = true
+				}
+			})
+			r.Cond(nan && inf, key, p.Pos(call.Pos()), "tested with math.IsNaN and math.IsInf", fmt.Sprintf("the result is not tested for finiteness (IsNaN: %v, IsInf: %v): the attribute text NaN or Infinity is accepted and sent to the backend as a coordinate or a size", nan, inf))
+		})
+	}
+	if n == 0 {
+		r.Unknown("svg | strconv.ParseFloat", "-", "no call found")
+	}
+}
